@@ -106,11 +106,15 @@ class InsecureHomeKitProtocol(asyncio.Protocol):
         self.transport = transport
 
     def connection_lost(self, exception: Exception) -> None:
-        if self.connection.protocol in (self, None):
-            # Only the protocol currently in use (or none, if the connection
-            # dropped it itself) may report the loss; a stale protocol from
-            # an abandoned connection must not tear down the current one.
-            self.connection._connection_lost(exception)
+        connection = self.connection
+        if connection.protocol is self:
+            # Only the protocol currently in use may report the loss; a stale
+            # protocol from an abandoned connection must not tear down the
+            # current one.
+            connection._connection_lost(exception)
+        elif connection.protocol is None and connection.closing:
+            # close() dropped this connection itself
+            connection.closed = True
         self._cancel_pending_requests()
 
     def _handle_timeout(self, fut: asyncio.Future[Any]) -> None:
